@@ -37,6 +37,7 @@ Two judgements per scenario:
 """
 import gc
 from harness import c09_locate
+from harness import c09_handshake
 from harness.c09_locate import Reach
 import itertools
 import os
@@ -45,10 +46,12 @@ import tempfile
 import weakref
 
 STREAMS = ['endpoints-parse', 'lifecycle-close-everywhere', 'lifecycle-random', 'lifecycle-reactions',
-           'lifecycle-extended', 'lifecycle-reconnect']
+           'lifecycle-extended', 'lifecycle-reconnect', 'connect-through-handshake']
 THEOREMS = ['connect_fires_once', 'first_reachable_in_order', 'lost_fails_everything_once', 'cancelled_only_by_caller',
             'every_connect_tries_in_written_order', 'endpoint_prefix_table',
-            'address_list_in_listed_order', 'written_addresses_tried_in_order']
+            'address_list_in_listed_order', 'written_addresses_tried_in_order',
+            'connect_concludes_through_handshake', 'refused_authentication_fails_connect',
+            'rejected_by_every_mechanism_fails_connect']
 TRUSTED_BASE = [
     'Twisted semantics assumed by the model and emulated by the harness: connectionLost is delivered once, no data '
     'after it; transport.loseConnection() is followed by connectionLost(ConnectionDone); an exception escaping '
@@ -64,6 +67,10 @@ TRUSTED_BASE = [
     '(_suppressAlreadyCalled) - mirrored by Call.cancelled, validated by the streams',
 ]
 ASSUMPTIONS = [
+    'connect-through-handshake (C09 x C07, Client/ConnectAuth.lean): after transport.loseConnection() the transport delivers '
+    'no further dataReceived; that the reactor then calls connectionLost is NOT assumed by the model - it is the step '
+    '`lost`, and a run without it is a run in which nothing fires (stated next to connect_concludes_through_handshake); '
+    'the binary framing / decoding of the Hello answer is a parameter of the model (owned by C04, C03, C08)',
     'Twisted calls connectionLost exactly once per connection and delivers nothing afterwards',
     'the Hello reply of a bus carries the unique name as one string (a reply without a body leaves busName None)',
     'address lists are well-formed (malformed ones are compared with the model but not judged: connect() raises instead '
@@ -80,7 +87,11 @@ RULE = ('endpoints-parse: rendered well-formed address lists plus mutations (dro
         'connection, optionally the close; close-everywhere = every prefix of a base history followed by the close; '
         'reactions = every assignment of the six reactions to a fixed skeleton of callbacks and calls; reconnect = one '
         'process that connects 2..4 times with the same address string on the same reactor (each earlier connection lost '
-        'or left open beside the next), every pattern of reachable addresses over three connects of `A;B` and `A;B;C`.  distinct = '
+        'or left open beside the next), every pattern of reachable addresses over three connects of `A;B` and `A;B;C`.  '
+        'connect-through-handshake = the factory\'s protocol on a recording transport, server byte scripts (accept the k-th '
+        'mechanism / reject all / any mix of REJECTED, ERROR, DATA, OK good and bad, AGREE_UNIX_FD, lines outside the protocol, '
+        'non-UTF-8, over-long lines; then the Hello reply with / without name, error, a non-message, a reply to another call, '
+        'a partial answer, nothing) cut into reads anywhere, connectionLost before every read / after the last / never / twice.  distinct = '
         'distinct canonical JSON of (address, steps); non-trivial = the transport connected (lifecycle) / at least one '
         'entry (parse)')
 
@@ -2002,11 +2013,15 @@ def _run(ctx, M, tmp):
     corpus = [c for _, c in ctx.corpus()]
     life = [c['input'] if 'input' in c else c for c in corpus]
     many = [c for c in life if isinstance(c, dict) and 'rounds' in c]
+    cah = [c for c in life if isinstance(c, dict) and 'cah' in c]
     life = [c for c in life if isinstance(c, dict) and 'steps' in c]
     if life:
         check_scenarios(ctx, M, 'lifecycle-reactions', life)
     if many:
         check_rounds(ctx, M, 'lifecycle-reconnect', many)
+
+    # ---- C09 x C07: one attempt through the real handshake (harness/c09_handshake.py)
+    c09_handshake.run_stream(ctx, M, tmp, corpus=cah)
 
     # ---- endpoints-parse
     n = ctx.scale(quick=1500, thorough=60000)
@@ -2064,7 +2079,9 @@ def _run(ctx, M, tmp):
 def replay(ctx, data):
     M = Mods()
     inp = data.get('input', data)
-    if isinstance(inp, dict) and 'rounds' in inp:
+    if isinstance(inp, dict) and 'cah' in inp:
+        c09_handshake.replay_one(ctx, M, inp)
+    elif isinstance(inp, dict) and 'rounds' in inp:
         check_rounds(ctx, M, 'lifecycle-reconnect', [inp])
     elif isinstance(inp, dict) and 'steps' in inp:
         check_scenarios(ctx, M, 'lifecycle-reactions', [inp])
